@@ -218,6 +218,11 @@ def r7_cursor_loops(text):
         mutk = 'iter_mut' if m.group(3) == '&mut ' else 'iter'
         return mk(m.group(1), None, m.group(2), m.group(4), mutk)
     text = re.sub(r'(?m)^(\s*)for (\w+) in (&mut |&)([\w\.]+) \{', repl_slice, text)
+
+    def repl_bare(m):
+        return mk(m.group(1), None, m.group(2), m.group(3), 'iter')
+    # `for c in xs {` with xs a plain identifier: in the extracted code base always a `&[T]` parameter
+    text = re.sub(r'(?m)^(\s*)for (\w+) in (\w+) \{', repl_bare, text)
     return text, cnt
 
 
